@@ -1,0 +1,21 @@
+//go:build verif
+
+package handshake
+
+// Contracts for /verif (contract-based deductive verification). Comment-only.
+
+// C19: the initiator completes the handshake (invokes the finished callback) only with a version
+// number it proposed, with version data that was decoded without error by that version's own
+// decoder, is present, and carries the network magic the initiator proposed for that version.
+//@ func (c *Client) handleAcceptVersion(msg) (err)
+//@   props C19
+//@   attr trackcalls on
+//@   requires typed: c != nil && dyn(msg) == type(*MsgAcceptVersion)
+//@   let m = unbox(msg, type(*MsgAcceptVersion))
+//@   callback FinishedFunc requires offered: arg1 == old(m.Version) && old(m.Version in c.config.ProtocolVersionMap)
+//@   callback FinishedFunc requires decoded: called(GetProtocolVersion) && callarg(GetProtocolVersion, 0) == old(m.Version) &&
+//@       called(NewVersionDataFromCborFunc) && callres(NewVersionDataFromCborFunc, 1) == nil && arg2 == callres(NewVersionDataFromCborFunc, 0) &&
+//@       callarg(NewVersionDataFromCborFunc, 0) == old(m.VersionData) && arg2 != nil
+//@   callback FinishedFunc requires magic: old(c.config.ProtocolVersionMap[m.Version]) != nil ==>
+//@       arg2.NetworkMagic() == old(c.config.ProtocolVersionMap[m.Version]).NetworkMagic()
+//@   ensures completes: err == nil ==> called(FinishedFunc)
